@@ -168,6 +168,8 @@ def gen_leaf(rng, sp, S='S'):
         choices = ['l1', 'l2', 'linf', 'ball1', 'ball2', 'ballinf', 'l2sq', 'const', 'zero', 'indzero',
                    'huber', 'huber', 'quad', 'quad']
     k = rng.choice(choices)
+    if k == 'sep' and len(sp.parts) < 2:
+        k = 'l2sq'            # SeparableSum of a single functional has no FSep2 counterpart
     if k in ('group', 'groupball'):
         b = (k == 'group')
         obj = F.GroupL1Norm(sp.odl, 2) if b else F.IndicatorGroupL1UnitBall(sp.odl, 2)
@@ -522,8 +524,26 @@ def chk_grad_eq(f, x):
         a = float(f(x))
         b = float(fc(g))
         if b == np.inf:
-            # rounding guard: the gradient of a norm sits on the unit sphere up to rounding
-            b = float(fc(g * (1 - 1e-9)))
+            # rounding guard: the gradient of a norm sits on the boundary of dom f* up to rounding (also after
+            # translations / scalings of the argument): accept the best finite value within 1e-9 of g
+            gf = _flatten(g)
+            scale = 1e-9 * (1.0 + float(np.max(np.abs(gf))) if gf.size else 1.0)
+            cands = [g * (1 - 1e-9), g * (1 + 1e-9)]
+            for i in range(gf.size):
+                for sgn in (1.0, -1.0):
+                    e = np.zeros(gf.size)
+                    e[i] = sgn * scale
+                    cands.append(g + _unflatten(g.space, e))
+            vals = []
+            for c in cands:
+                try:
+                    v = float(fc(c))
+                    if np.isfinite(v):
+                        vals.append(v)
+                except Exception:  # noqa
+                    pass
+            if vals:
+                b = min(vals, key=lambda v: abs(a + v - float(x.inner(g))))
     except _SKIP:
         return None, 'not evaluable'
     except ValueError as e:
@@ -536,6 +556,18 @@ def chk_grad_eq(f, x):
     if not np.isfinite(a):
         return None, 'f(x) infinite'
     return bool(abs(a + b - r) <= 1e-7 * _scale(a, b, r)), 'f(x)=%r f*(g)=%r <x,g>=%r' % (a, b, r)
+
+
+def _unflatten(space, arr):
+    import odl
+    if isinstance(space, odl.ProductSpace):
+        out, k = [], 0
+        for sp_i in space:
+            n_i = sp_i.size
+            out.append(_unflatten(sp_i, arr[k:k + n_i]))
+            k += n_i
+        return space.element(out)
+    return space.element(np.asarray(arr).reshape(space.shape))
 
 
 def _flatten(el):
